@@ -137,3 +137,89 @@ Definition filter_signature (topics : list str) (f : str) : N :=
   | None => 0
   | Some tf => bits_to_N (true :: map (filter_match tf) topics)
   end.
+
+(* ====================================================================================
+   Additions (round 3).  Nothing above this line was changed (Clone.v imports this file).
+   ==================================================================================== *)
+
+(* ---------- '$' ---------- *)
+
+Definition DOLLAR : N := 36.
+
+(* The property's quantifier ranges over topic names that do not start with '$'.  (MQTT 3.1.1
+   4.7.2 says that a filter starting with a wildcard must not match such topics; filter.go has no
+   such rule — Match never looks at '$' — and neither has the model or [matches].) *)
+Definition starts_with_dollar (s : str) : bool :=
+  match s with c :: _ => N.eqb c DOLLAR | [] => false end.
+
+(* renaming of characters, level-wise *)
+Definition rename_levels (rho : N -> N) (ls : list str) : list str := map (map rho) ls.
+
+(* exchange two characters *)
+Definition swap_chars (a b : N) (c : N) : N :=
+  if N.eqb c a then b else if N.eqb c b then a else c.
+
+(* ---------- ServeMux as a state machine over interleaved Handle / Serve operations ----------
+   Several ServeMux values exist side by side (index i); an operation names the instance it is
+   applied to.  servemux.go:34-45 (Handle: validate, append) and :47-54 (Serve: walk the handlers
+   registered so far, in order).  The handler of a registration is identified by a number. *)
+
+Inductive mux_op :=
+| OpHandle (i : nat) (f : str) (h : nat)      (* muxes[i].Handle(f, handler h) *)
+| OpServe (i : nat) (t : str).                (* muxes[i].Serve(&Message{Topic: t}) *)
+
+Inductive mux_ev :=
+| EvHandle (accepted : bool)                  (* err == nil *)
+| EvServe (called : list nat).                (* handlers invoked, in order of invocation *)
+
+Definition muxes := nat -> mux.
+
+Definition muxes_empty : muxes := fun _ => [].
+
+Definition muxes_upd (st : muxes) (i : nat) (m : mux) : muxes :=
+  fun j => if Nat.eqb j i then m else st j.
+
+Definition is_some {A} (o : option A) : bool := match o with Some _ => true | None => false end.
+
+Fixpoint muxes_run (st : muxes) (ops : list mux_op) : list mux_ev :=
+  match ops with
+  | [] => []
+  | OpHandle i f h :: r =>
+      EvHandle (is_some (new_topic_filter f))
+      :: muxes_run (muxes_upd st i (mux_handle (st i) (f, h))) r
+  | OpServe i t :: r =>
+      EvServe (mux_serve (st i) t) :: muxes_run st r
+  end.
+
+(* spec side: the registrations made on instance i by a sequence of operations, in order *)
+Fixpoint regs_on (i : nat) (ops : list mux_op) : list (str * nat) :=
+  match ops with
+  | [] => []
+  | OpHandle j f h :: r => if Nat.eqb j i then (f, h) :: regs_on i r else regs_on i r
+  | OpServe _ _ :: r => regs_on i r
+  end.
+
+(* what the k-th operation of a history must produce, written without any state: a Handle is
+   accepted iff the filter is valid; a Serve on instance i invokes, of the registrations made on
+   instance i by the operations BEFORE position k, exactly those that select the topic, in order *)
+Definition op_spec (ops : list mux_op) (k : nat) (e : mux_ev) : Prop :=
+  match nth_error ops k with
+  | None => False
+  | Some (OpHandle _ f _) => exists b, e = EvHandle b /\ (b = true <-> valid_filter f)
+  | Some (OpServe i t) => exists hs, e = EvServe hs /\ select_rel t (regs_on i (firstn k ops)) hs
+  end.
+
+(* ---------- enumeration of topics not starting with '$' (second exhaustive space) ---------- *)
+
+Definition topics_upto (alpha : list N) (n : nat) : list str :=
+  filter (fun s => negb (starts_with_dollar s)) (strings_upto alpha n).
+
+(* the event [op_spec] prescribes for position k, computed from the history alone (registrations
+   before k on the same instance, selected by the one-shot dispatch of C14_mux); used as the
+   executable property predicate on observed histories — [op_expected_spec] in Filter_proofs.v *)
+Definition op_expected (ops : list mux_op) (k : nat) : option mux_ev :=
+  match nth_error ops k with
+  | None => None
+  | Some (OpHandle _ f _) => Some (EvHandle (is_some (new_topic_filter f)))
+  | Some (OpServe i t) => Some (EvServe (mux_serve (mux_of (regs_on i (firstn k ops))) t))
+  end.
